@@ -60,7 +60,7 @@ FnSigs(e) ==
                   THEN {FSig("C07", "FirstParamSets", "extract_hevc_config", "not-the-first")} ELSE {})
           ELSE {})
     \cup (IF "key264" \in DOMAIN e /\ e.key264 # H264HasIdr(d) THEN {FSig("C04", "KeyDetect", "is_h264_keyframe", "differs")} ELSE {})
-    \cup { FSig("C12", "Total", e.panics[i].f, << "panic", e.panics[i].msg >>) : i \in 1..Len(e.panics) }
+    \cup { FSig("C12", "Total", e.panics[i].f, ToString(<< "panic", e.panics[i].msg >>)) : i \in 1..Len(e.panics) }
 
 TFn == /\ l <= Len(Rec) /\ Rec[l].ev = "fn" /\ l' = l + 1 /\ hdr' = hdr /\ n' = n + 1
        /\ LET e == Rec[l]  k == hdr.base + hdr.stride * n IN
